@@ -480,7 +480,12 @@ partial def loop (hin hout : IO.FS.Stream) : IO Unit := do
   if line.isEmpty then
     hout.flush
     return ()
-  hout.putStrLn (handle line)
+  -- a leading `@` asks for the response to be flushed at once (interactive use by the shrinker)
+  if line.startsWith "@" then
+    hout.putStrLn (handle (line.drop 1).toString)
+    hout.flush
+  else
+    hout.putStrLn (handle line)
   loop hin hout
 
 def main : IO Unit := do
